@@ -30,6 +30,9 @@ LABEL_RE = re.compile(r"//\s*\[((?:C\d\d)(?:\+C\d\d)*)/([^\]]+)\]")
 
 VERIFICATION_ERRORS = (
     "postcondition not satisfied",
+    "unable to prove post-condition of closure",
+    "post-condition of closure",
+    "pre-condition of closure",
     "precondition not satisfied",
     "invariant not satisfied",
     "assertion failed",
